@@ -23,7 +23,7 @@ MUST = ["write.twice", "write.via_write_xml", "cycle.g2g3_files", "write.after_p
 RULE = ("case = generated definition (both build routes; namespace conventions prefix xtce / custom prefix / default "
         "namespace / none) with a fixed header date: written twice in-process, again after it decoded packets, and again after other definitions (with / without a SpaceSystem name, other header "
         "values, other namespace styles) were written in between, written in two further processes with "
-        "PYTHONHASHSEED 1 and 4242, cycled write->load->write->load->write; checks: byte identity, G2==G3, "
+        "PYTHONHASHSEED 1 and 4242, cycled write->load->write->load->write in memory and (one definition in five) through write_xml files; checks: byte identity, G2==G3, "
         "well-formedness + namespace of every element, no write to the definition during serialization. "
         "distinct_nontrivial = distinct (route, namespace style, document feature set) signatures; a header-only "
         "document is trivial and excluded.")
